@@ -459,3 +459,112 @@ impl similar::DiffableStr for Ci {
         &self.0
     }
 }
+
+// ---- further legal-but-unusual instantiations ------------------------------------------------
+
+/// New-side element type whose OWN equality is finer than its equality with the old side's
+/// items: two `Tagged` are equal only when value and tag agree (every position has its own tag),
+/// while `Tagged == Lo` goes by the value alone.  The diff is defined by the cross-type
+/// equality only.
+#[derive(Hash, PartialEq, Eq, PartialOrd, Ord, Clone, Copy, Debug)]
+pub struct Tagged {
+    pub v: u32,
+    pub tag: usize,
+}
+
+impl PartialEq<Lo> for Tagged {
+    fn eq(&self, o: &Lo) -> bool {
+        self.v == o.0
+    }
+}
+
+pub fn tagged(seq: &[u8]) -> Vec<Tagged> {
+    seq.iter().enumerate().map(|(i, &x)| Tagged { v: x as u32, tag: i }).collect()
+}
+
+/// Element type with a legal, non-reflexive PartialEq (like f64 with NaN): the value `NAN_LIKE`
+/// is unequal to everything including itself.  Only PartialEq: usable with Myers and LCS.
+#[derive(Clone, Copy, Debug)]
+pub struct Nr(pub u8);
+pub const NAN_LIKE: u8 = 1;
+
+impl PartialEq for Nr {
+    fn eq(&self, o: &Nr) -> bool {
+        self.0 == o.0 && self.0 != NAN_LIKE
+    }
+}
+
+/// A sequence whose items are UNSIZED views that all start at the same address: item i is
+/// `buf[..lens[i]]`, so two items are equal exactly when they have the same length.
+pub struct SharedStart<'a> {
+    pub buf: &'a [u8],
+    pub lens: Vec<usize>,
+}
+
+impl<'a> SharedStart<'a> {
+    pub fn new(buf: &'a [u8], symbols: &[u8]) -> SharedStart<'a> {
+        SharedStart { buf, lens: symbols.iter().map(|&x| x as usize + 1).collect() }
+    }
+}
+
+impl<'a> Index<usize> for SharedStart<'a> {
+    type Output = [u8];
+    fn index(&self, i: usize) -> &[u8] {
+        &self.buf[..self.lens[i]]
+    }
+}
+
+/// Hook wrapper that re-enters the library: before forwarding a callback it runs complete
+/// diffs of a fixed pair with all three algorithms on the same thread (what a hook that
+/// post-processes every change with a nested diff does).
+pub struct Reentrant<D: DiffHook> {
+    pub inner: D,
+    pub nested_runs: u64,
+    calls: u64,
+}
+
+impl<D: DiffHook> Reentrant<D> {
+    pub fn new(inner: D) -> Reentrant<D> {
+        Reentrant { inner, nested_runs: 0, calls: 0 }
+    }
+    fn nested(&mut self) {
+        // (only the first two callbacks of a diff re-enter; later ones would only repeat that)
+        self.calls += 1;
+        const A: [u8; 5] = [3, 0, 1, 0, 2];
+        const B: [u8; 6] = [0, 2, 2, 1, 0, 3];
+        if self.calls == 1 {
+            for alg in [similar::Algorithm::Myers, similar::Algorithm::Patience, similar::Algorithm::Lcs] {
+                let mut sink = Rec::new();
+                let _ = similar::algorithms::diff(alg, &mut sink, &A[..], 0..A.len(), &B[..], 0..B.len());
+                self.nested_runs += 1;
+            }
+        } else if self.calls == 2 {
+            let _ = similar::capture_diff_slices(similar::Algorithm::Patience, &A[..], &B[..]);
+            self.nested_runs += 1;
+        }
+    }
+}
+
+impl<D: DiffHook> DiffHook for Reentrant<D> {
+    type Error = D::Error;
+    fn equal(&mut self, o: usize, n: usize, l: usize) -> Result<(), D::Error> {
+        self.nested();
+        self.inner.equal(o, n, l)
+    }
+    fn delete(&mut self, o: usize, l: usize, n: usize) -> Result<(), D::Error> {
+        self.nested();
+        self.inner.delete(o, l, n)
+    }
+    fn insert(&mut self, o: usize, n: usize, l: usize) -> Result<(), D::Error> {
+        self.nested();
+        self.inner.insert(o, n, l)
+    }
+    fn replace(&mut self, o: usize, ol: usize, n: usize, nl: usize) -> Result<(), D::Error> {
+        self.nested();
+        self.inner.replace(o, ol, n, nl)
+    }
+    fn finish(&mut self) -> Result<(), D::Error> {
+        self.nested();
+        self.inner.finish()
+    }
+}
